@@ -28,6 +28,7 @@ type ListObj struct {
 	ID   int
 	Elem types.Type
 	Sym  bool // elements not yet written are symbolic (input) rather than zero
+	New  bool // symbolic list created during execution (result of a call), not an input
 }
 
 type StrV struct {
